@@ -10,7 +10,7 @@ import urllib.parse
 from .. import core, ref_seq, refval
 from ..ref_seq import FAIL, NAMES, SIG, Bad, BadWith, model_call
 
-STRS = ['', 'a', 'abc', 'a,b,,c', '  pad ', 'AbC', 'abcabc', 'b']
+STRS = ['', 'a', 'abc', 'a,b,,c', '  pad ', 'AbC', 'abcabc', 'b', 'é😀x', 'x😀', 'aXa']
 
 
 def plan(tier, seed):
